@@ -191,7 +191,11 @@ func ExpectedJSON(t *TSpec, opt string, v Val) JV {
 		if u.Key.Under().Kind == KString {
 			o := JV{Kind: "obj", Unordered: true}
 			for _, kv := range v.M {
-				o.Pairs = append(o.Pairs, JPair{JSONStringModel(kv.K.S), ExpectedJSON(u.Elem, "", kv.V)})
+				val := kv.V
+				if RefOmit(u.Elem, val) {
+					val = ZeroVal(u.Elem) // an omitted value stands for the zero value (-0 becomes 0)
+				}
+				o.Pairs = append(o.Pairs, JPair{JSONStringModel(kv.K.S), ExpectedJSON(u.Elem, "", val)})
 			}
 			return o
 		}
@@ -234,7 +238,7 @@ func MatchJSON(want, got JV, path string) error {
 			return fmt.Errorf("%s: want number %v, got %s", path, *want.Float, got.Kind)
 		}
 		f, err := strconv.ParseFloat(got.Num, 64)
-		if err != nil || f != *want.Float {
+		if err != nil || f != *want.Float || math.Signbit(f) != math.Signbit(*want.Float) {
 			return fmt.Errorf("%s: want number %v, got %s", path, *want.Float, got.Num)
 		}
 		return nil
@@ -277,18 +281,8 @@ func MatchJSON(want, got JV, path string) error {
 			}
 			return nil
 		}
-		used := make([]bool, len(got.Elems))
-		for i := range want.Elems {
-			found := false
-			for j := range got.Elems {
-				if !used[j] && MatchJSON(want.Elems[i], got.Elems[j], path) == nil {
-					used[j], found = true, true
-					break
-				}
-			}
-			if !found {
-				return fmt.Errorf("%s: no element matches expected entry %d", path, i)
-			}
+		if !perfectMatching(len(want.Elems), func(i, j int) bool { return MatchJSON(want.Elems[i], got.Elems[j], path) == nil }) {
+			return fmt.Errorf("%s: the elements cannot be matched one to one with the expected entries", path)
 		}
 	case "obj":
 		if len(want.OptionalEmpty) > 0 && len(got.Pairs) > len(want.Pairs) {
@@ -322,21 +316,43 @@ func MatchJSON(want, got JV, path string) error {
 			}
 			return nil
 		}
-		used := make([]bool, len(got.Pairs))
-		for i := range want.Pairs {
-			found := false
-			for j := range got.Pairs {
-				if !used[j] && want.Pairs[i].K == got.Pairs[j].K && MatchJSON(want.Pairs[i].V, got.Pairs[j].V, path) == nil {
-					used[j], found = true, true
-					break
-				}
-			}
-			if !found {
-				return fmt.Errorf("%s: no member matches expected %q", path, want.Pairs[i].K)
-			}
+		if !perfectMatching(len(want.Pairs), func(i, j int) bool {
+			return want.Pairs[i].K == got.Pairs[j].K && MatchJSON(want.Pairs[i].V, got.Pairs[j].V, path) == nil
+		}) {
+			return fmt.Errorf("%s: the members %v cannot be matched one to one with the expected %v", path, pairKeys(got), pairKeys(want))
 		}
 	}
 	return nil
+}
+
+// perfectMatching decides whether n expected items can be matched one to one
+// with n observed items (augmenting paths; duplicates after U+FFFD replacement
+// make greedy matching wrong).
+func perfectMatching(n int, ok func(i, j int) bool) bool {
+	matchOf := make([]int, n) // observed j -> expected i
+	for j := range matchOf {
+		matchOf[j] = -1
+	}
+	var try func(i int, seen []bool) bool
+	try = func(i int, seen []bool) bool {
+		for j := 0; j < n; j++ {
+			if seen[j] || !ok(i, j) {
+				continue
+			}
+			seen[j] = true
+			if matchOf[j] < 0 || try(matchOf[j], seen) {
+				matchOf[j] = i
+				return true
+			}
+		}
+		return false
+	}
+	for i := 0; i < n; i++ {
+		if !try(i, make([]bool, n)) {
+			return false
+		}
+	}
+	return true
 }
 
 func pairKeys(v JV) []string {
